@@ -339,6 +339,18 @@ pub fn c14_oracle(input: &[u8], zone: Option<&Name>, st: &mut Stats) -> PResult 
         Err(pm) => fail!(format!("C14 conversion-panic {}", panic_sig(&pm)), "{} {}", pm, desc()),
         Ok(r) => r,
     };
+    // the appending variant must behave the same whatever the output buffer already holds
+    for prefix_len in [1usize, 2, 120, 254, 300] {
+        let mut buf = vec![0xeeu8; prefix_len];
+        let r2 = catch(|| dgen::copy_raw_name_from_str(&mut buf, input, zw.as_deref()).map_err(|e| e.to_string()));
+        match (r2, &r) {
+            (Err(pm), _) => fail!(format!("C14 conversion-panic {}", panic_sig(&pm)), "appending to a buffer of {} bytes: {} {}", prefix_len, pm, desc()),
+            (Ok(Ok(())), Ok(raw)) => ensure!(buf[..prefix_len].iter().all(|&b| b == 0xee) && buf[prefix_len..] == raw[..], "C14 appending-conversion-differs", "{}: appended {} to a {}-byte buffer, stand-alone result {}", desc(), hex(&buf[prefix_len.min(buf.len())..]), prefix_len, hex(raw)),
+            (Ok(Err(_)), Err(_)) => {}
+            (Ok(Ok(())), Err(e)) => fail!("C14 appending-conversion-differs", "{}: accepted when appending to a {}-byte buffer, refused stand-alone ({})", desc(), prefix_len, e),
+            (Ok(Err(e)), Ok(_)) => fail!("C14 appending-conversion-differs", "{}: refused ({}) when appending to a {}-byte buffer, accepted stand-alone", desc(), e, prefix_len),
+        }
+    }
     let exp = expected_labels(input, zone);
     let ldh = |c: u8| c.is_ascii_alphanumeric() || c == b'-' || c == b'_';
     match &r {
